@@ -9,6 +9,7 @@ All statements hold for arbitrary sequences, key types, heights and numbers of h
 -/
 import P2.Model.Heights
 import P2.Lemmas.Heights
+import P2.Extracted.C07
 
 namespace P2.C07
 open P2.Heights
@@ -202,6 +203,30 @@ theorem c07_ack_only_own_topic (t : CursorTable (Nat × Nat)) (a : Acked) (h : A
       exact hinv k v hk
   · simp only [ht, and_false, if_false] at hk
     exact hinv k v hk
+
+/-! ## Tie to the source text -/
+
+/-- `Cursor::advance` is the term `rs2lean` regenerates from the current Rust body on every run
+    (`cur` = `self.log_height(&author, &log_id)`, `upsert` = the `entry().or_default().insert()`
+    statement), with the model's `lookup` / `upsert` plugged in.  Flipping `>=`, dropping the early
+    return or the insert changes the generated term and breaks this theorem. -/
+theorem c07_advance_is_source (c : Heights K) (k : K) (h : Nat) :
+    advance c k h
+      = P2.Extracted.C07.advanceT c (lookup k c) (fun st v => upsert k v st) h := by
+  unfold advance P2.Extracted.C07.advanceT
+  cases lookup k c <;> rfl
+
+/-- Shape of `Acked::ack` in the current source (re-extracted on every run; a missing pattern is
+    itself a failure): the semaphore permit is acquired *first*, the topic check compares
+    `LogId::from_topic(self.topic)` with the header's log id using `!=` and returns
+    `InvalidTopic` *before* the cursor is read, and exactly the header's author, log id and
+    sequence number are advanced before the single `set_cursor` inside the transaction. -/
+theorem c07_ack_source_shape :
+    P2.Extracted.C07.ackFirstStatement = "let _permit = self.semaphore.acquire().await;" ∧
+    P2.Extracted.C07.ackTopicCheck = "LogId::from_topic(self.topic) != header.extensions.log_id()" ∧
+    P2.Extracted.C07.ackAdvanceArgs
+      = "header.verifying_key, header.extensions.log_id(), header.seq_num" := by
+  decide
 
 /-! ## Concurrency: what the per-instance semaphore does and does not give
 
